@@ -90,6 +90,61 @@ def scan_constcasts(root):
     return out
 
 
+def scan_long(root):
+    """a value whose WRITTEN type is `long` / `unsigned long` (a literal with an L / UL suffix in the source, a variable declared long, an explicit cast
+    to long) used as the LEFT operand of `<<` with a shift count that is not a constant below 31: 64 bits wide on the x86-64 / AArch64 targets, 32 on
+    ARMv6-M (and LLP64), where the bits shifted past position 31 are lost (and a count >= 32 is undefined).  The fixed-width typedefs and the
+    UINT64_C-style macros expand to the right type per target and are not flagged (macro-expanded literals have a scratch-space spelling location;
+    typedef'd types carry a desugared type next to the written one); an unsuffixed literal that is long only by magnitude adapts to the target."""
+    out = []
+    cur = [""]
+    LONG = re.compile(r"^(const |volatile )*(unsigned long|long|signed long|long unsigned int|long int|unsigned long int)( const| volatile)*$")
+
+    def written_long(t):
+        return isinstance(t, dict) and "desugaredQualType" not in t and "typeAliasDeclId" not in t and bool(LONG.match(t.get("qualType", "").strip()))
+
+    def strip(n):
+        while n.get("kind") in ("ParenExpr", "ImplicitCastExpr") and n.get("inner"):
+            n = n["inner"][0]
+        return n
+
+    def is_written_long_value(n, f):
+        n = strip(n)
+        k = n.get("kind")
+        b = n.get("range", {}).get("begin", {})
+        if "spellingLoc" in b or "expansionLoc" in b:
+            return None
+        if k == "IntegerLiteral" and written_long(n.get("type")):
+            tok = ""
+            try:
+                with open(f, "rb") as fh:
+                    fh.seek(b.get("offset", 0))
+                    tok = fh.read(b.get("tokLen", 0)).decode("ascii", "replace")
+            except OSError:
+                tok = "?"
+            return tok if (re.search(r"(?i)(ul|lu|l)$", tok) and not re.search(r"(?i)ll", tok)) else None
+        if k == "DeclRefExpr" and written_long(n.get("referencedDecl", {}).get("type")):
+            return n["referencedDecl"].get("name")
+        if k in ("CStyleCastExpr", "CXXStaticCastExpr", "CXXFunctionalCastExpr") and written_long(n.get("type")):
+            return "(long) cast"
+        return None
+
+    def small_const(n):
+        n = strip(n)
+        return n.get("kind") == "IntegerLiteral" and int(n.get("value", "99")) < 31
+
+    def walk(n):
+        f = in_repo(n, cur)
+        if f.startswith(REPO + "/") and n.get("kind") in ("BinaryOperator", "CompoundAssignOperator") and n.get("opcode") in ("<<", "<<=") and len(n.get("inner", [])) == 2:
+            who = is_written_long_value(n["inner"][0], f)
+            if who is not None and not small_const(n["inner"][1]):
+                out.append(("<<", who, os.path.basename(f), n.get("range", {}).get("begin", {}).get("line")))
+        for c in n.get("inner", []) or []:
+            walk(c)
+    walk(root)
+    return out
+
+
 def scan_plainchar(root):
     """values of plain `char` type in library code.  Plain char is signed on x86-64 and unsigned on AArch64 / ARMv6-M (AAPCS), so any comparison,
     shift, widening or table index computed from one differs between the targets the library ships code for; int8_t / uint8_t / signed char /
@@ -179,6 +234,7 @@ def facts():
                 _FACTS["f"] = [(name,) + scan(root) for (name, root) in roots]
                 _FACTS["cc"] = [(name, scan_constcasts(root)) for (name, root) in roots]
                 _FACTS["pc"] = [(name, scan_plainchar(root)) for (name, root) in roots]
+                _FACTS["lg"] = [(name, scan_long(root)) for (name, root) in roots]
             finally:
                 shutil.rmtree(wd, ignore_errors=True)
             for (_, _, mutables, _) in _FACTS["f"]:
@@ -348,6 +404,9 @@ def gen_chartype(tu):
         for (name, pc) in _FACTS.get("pc", []):
             obs.append(("[%s] no value of plain `char` type (signed on x86-64, unsigned on the ARM targets): results cannot depend on the target's char signedness" % name,
                         "ok" if not pc else "fail", repr(pc[:6]), None))
+        for (name, lg) in _FACTS.get("lg", []):
+            obs.append(("[%s] no value whose written type is `long` / `unsigned long` is shifted left by a count that may reach 31 (32 bits on ARMv6-M, 64 on the other targets)" % name,
+                        "ok" if not lg else "fail", repr(lg[:6]), None))
         return obs
     yield "plain char", guarded(run)
 
@@ -356,5 +415,5 @@ def units():
     return [ScenUnit("C03/C20: run-time dispatch table: each pointer is probe ? BMI2/ADX routine : baseline routine of the same operation; CPUID probe; no other dynamic initialisation", ["C03", "C20"], gen_dispatch, contracts_used=["clang AST", "objdump of the assembled probe"]),
             ScenUnit("C20: no function-local statics, no mutable globals beyond the dispatch table, no writes to globals (AST, all configurations)", P, gen_ast, contracts_used=["clang AST"]),
             ScenUnit("C20: undefined symbols and writable sections of the rebuilt objects", P, gen_objects, contracts_used=["clang++ / as / nm on the working tree"]),
-            ScenUnit("target-dependent basic types: no value of plain char type in library code (every configuration's AST)", ["C17", "C03", "C06", "C10"], gen_chartype, contracts_used=["clang AST"],
+            ScenUnit("target-dependent basic types: no value of plain char type, no left shift of a written-long value, in library code (every configuration's AST)", ["C17", "C03", "C06", "C07", "C10", "C02"], gen_chartype, contracts_used=["clang AST"],
                      note="the proofs are carried out for the x86-64 ABI (signed char); this static fact is what lets them stand for the AArch64 / ARMv6-M targets, where plain char is unsigned")]
